@@ -180,6 +180,13 @@ type scopeRun struct {
 	indepViol   string
 	keyViol     string
 	missViol    string
+	hKind       map[int]byte // histogram metric id -> 'v' / 'd' as the library decided when it created the histogram
+	hNT         map[int]string
+	hScope      map[int]int
+	hLive       map[string]int64 // samples of the histogram's own kind recorded while its scope (and the root) was live
+	hGot        map[string]int64 // sum of the per-bucket sample counts delivered
+	hFuzzy      map[string]bool
+	defKind     byte
 	rootRaw     map[string]string // the root's tags as the application spelled them
 	sameObjViol string
 	ctrNT       map[string]int // counters created through the program: name|tags token -> scope id
@@ -234,13 +241,16 @@ func (sr *scopeRun) events() string {
 		case "hval":
 			out = append(out, fmt.Sprintf("hv|%s|%s|%s|%d", nt, f64hex(e.LoF), f64hex(e.HiF), e.I))
 			sr.checkPair(nt, "v"+f64hex(e.LoF)+"|"+f64hex(e.HiF))
+			sr.hGot[nt] += e.I
 		case "hdur":
+			sr.hGot[nt] += e.I
 			out = append(out, fmt.Sprintf("hd|%s|%d|%d|%d", nt, int64(e.LoD), int64(e.HiD), e.I))
 			sr.checkPair(nt, fmt.Sprintf("d%d|%d", int64(e.LoD), int64(e.HiD)))
 		case "samples":
 			b := sr.histB[e.ID][e.Idx]
 			out = append(out, fmt.Sprintf("%s|%s|%s|%s|%d", sr.histKind[e.ID], nt, b[0], b[1], e.I))
 			sr.checkPair(nt, sr.histKind[e.ID][1:]+b[0]+"|"+b[1])
+			sr.hGot[nt] += e.I
 		case "bucket-v":
 			sr.histB[e.ID] = append(sr.histB[e.ID], [2]string{f64hex(e.LoF), f64hex(e.HiF)})
 			sr.histKind[e.ID] = "hv"
@@ -450,6 +460,50 @@ func (sr *scopeRun) noteInc(mid int, v int64) {
 	sr.consLive[nt] += v
 }
 
+// noteHistMetric / noteSample: C03's conservation clause in the programs, independent of the model - "the per-bucket
+// sample counts delivered add up to the number of samples recorded ... and a value histogram ignores durations and
+// vice versa".  The kind of a histogram is that of the specification it was CREATED with (nil: the scope's default
+// buckets); asking for an existing name with another specification returns the existing histogram.
+func (sr *scopeRun) noteHistMetric(m tally.Histogram, p int, name string, b tally.Buckets) {
+	if sr.scopes[p] == tally.NoopScope {
+		return
+	}
+	id, ok := sr.metricID[m]
+	if !ok {
+		return
+	}
+	if _, seen := sr.hKind[id]; seen {
+		return
+	}
+	switch b.(type) {
+	case tally.DurationBuckets:
+		sr.hKind[id] = 'd'
+	case tally.ValueBuckets:
+		sr.hKind[id] = 'v'
+	default:
+		sr.hKind[id] = sr.defKind
+	}
+	full := sr.san.Name(name)
+	if pfx := tally.VerifScopePrefix(sr.scopes[p]); pfx != "" {
+		full = pfx + sr.sepS + full
+	}
+	sr.hNT[id] = hxs(full) + "|" + mapHex(tally.VerifScopeTags(sr.scopes[p]))
+	sr.hScope[id] = p
+}
+
+func (sr *scopeRun) noteSample(mid int, kind byte) {
+	k, ok := sr.hKind[mid]
+	if !ok || k != kind {
+		return // a sample of the other kind: ignored by the histogram
+	}
+	nt := sr.hNT[mid]
+	if sr.rootDead || sr.closed[0] || sr.closed[sr.hScope[mid]] {
+		sr.hFuzzy[nt] = true
+		return
+	}
+	sr.hLive[nt]++
+}
+
 var collidingSpecs = []tally.Buckets{
 	tally.DurationBuckets{1e6, 4e6}, tally.DurationBuckets{2e6, 3e6}, tally.DurationBuckets{3e6, 2e6},
 	tally.ValueBuckets{1.25, 1.75}, tally.ValueBuckets{1.375, 1.625},
@@ -565,7 +619,9 @@ func (sr *scopeRun) checkSnap(snap tally.Snapshot) {
 	}
 	// "one entry per metric": while nothing has been closed, every counter the program created (on the root or on
 	// any derived scope) has an entry, whichever scope of the tree the snapshot was taken through
-	if sr.missViol == "" && len(sr.closed) == 0 && !sr.rootDead {
+	// (a TEST scope's subscopes and their metrics survive Close: there the oracle holds after subscope closes as well,
+	// also for metrics first used after the Close)
+	if sr.missViol == "" && (len(sr.closed) == 0 || sr.kind == "none") && !sr.rootDead {
 		have := map[string]bool{}
 		for _, cs := range snap.Counters() {
 			have[hxs(cs.Name())+"|"+mapHex(cs.Tags())] = true
@@ -722,7 +778,7 @@ func scopeKeyCases(c *Ctx, n int) {
 func runScopeProgram(c *Ctx, r *Rng, mode string) {
 	sr := &scopeRun{c: c, r: r, scopeID: map[tally.Scope]int{}, metricID: map[interface{}]int{}, closed: map[int]bool{},
 		histB: map[int][][2]string{}, histKind: map[int]string{}, how: map[int]scopeHow{}, sigBase: "scope-" + mode + "-", depth: map[int]int{},
-		consLive: map[string]int64{}, consFuzzy: map[string]bool{}, consGot: map[string]int64{}, gLast: map[string]string{}, gFuzzy: map[string]bool{}, gGot: map[string]string{}, mScope: map[int]int{}, mNT: map[int]string{},
+		consLive: map[string]int64{}, consFuzzy: map[string]bool{}, consGot: map[string]int64{}, gLast: map[string]string{}, gFuzzy: map[string]bool{}, gGot: map[string]string{}, mScope: map[int]int{}, mNT: map[int]string{}, hKind: map[int]byte{}, hNT: map[int]string{}, hScope: map[int]int{}, hLive: map[string]int64{}, hGot: map[string]int64{}, hFuzzy: map[string]bool{}, defKind: 'd',
 		histPairs: map[string]map[string]bool{}, histUps: map[string]map[string]bool{}}
 	sg := genSan(r)
 	if (mode == "c04" || mode == "c05") && r.Chance(6) {
@@ -797,6 +853,7 @@ func runScopeProgram(c *Ctx, r *Rng, mode string) {
 		b := tally.ValueBuckets{2.5, 1, 2.5, 7}
 		opts.DefaultBuckets = b
 		defb = specTok(b)
+		sr.defKind = 'v'
 	case w < 19: // a default specification without bounds counts as "not configured": the library's default buckets
 		opts.DefaultBuckets = []tally.Buckets{tally.ValueBuckets{}, tally.DurationBuckets{}}[r.Intn(2)]
 	}
@@ -1125,6 +1182,7 @@ func runScopeProgram(c *Ctx, r *Rng, mode string) {
 				sr.noteHist(p, name, b)
 				m := sr.scopes[p].Histogram(name, b)
 				sr.say(fmt.Sprintf("hist %d %s %s => %s %s", p, hxs(name), specTok(b), sr.midOf(m, "hist"), sr.events()), "metric")
+				sr.noteHistMetric(m, p, name, b)
 			}
 		case w < 78 && len(sr.metrics) > 0: // record
 			mid := r.Intn(len(sr.metrics))
@@ -1178,6 +1236,7 @@ func runScopeProgram(c *Ctx, r *Rng, mode string) {
 				if r.Bool() {
 					v := float64(r.Range(0, 10))
 					m.RecordValue(v)
+					sr.noteSample(mid, 'v')
 					sr.say(fmt.Sprintf("recv %d %s => %s", mid, f64hex(v), sr.events()), "record")
 				} else {
 					d := int64(r.Range(0, 10)) * 1e6
@@ -1199,6 +1258,7 @@ func runScopeProgram(c *Ctx, r *Rng, mode string) {
 					} else {
 						m.RecordDuration(time.Duration(d))
 					}
+					sr.noteSample(mid, 'd')
 					sr.say(fmt.Sprintf("recd %d %d => %s", mid, d, sr.events()), "record")
 				}
 			}
@@ -1375,6 +1435,26 @@ func runScopeProgram(c *Ctx, r *Rng, mode string) {
 				c.Cov.Fail(Failure{Kind: "violated", Clause: "conservation", Signature: sr.sigBase + "conservation",
 					Line:   strings.Join(sr.lines, " ; "),
 					Reply:  fmt.Sprintf("counter %s: increments applied while its scope was live add up to %d, deliveries add up to %d (after a final pass and the root's Close)", nt, sr.consLive[nt], sr.consGot[nt]),
+					Detail: strings.Join(sr.lines, "\n")})
+				break
+			}
+		}
+	}
+	if sr.log() != nil {
+		hnts := make([]string, 0, len(sr.hLive))
+		for nt := range sr.hLive {
+			hnts = append(hnts, nt)
+		}
+		sort.Strings(hnts)
+		for _, nt := range hnts {
+			if sr.hFuzzy[nt] {
+				continue
+			}
+			c.Cov.Hit("histogram-conservation.checked")
+			if sr.hGot[nt] != sr.hLive[nt] {
+				c.Cov.Fail(Failure{Kind: "violated", Clause: "histogram-samples-conserved", Signature: sr.sigBase + "histogram-conservation",
+					Line:   strings.Join(sr.lines, " ; "),
+					Reply:  fmt.Sprintf("histogram %s: %d samples of its own kind were recorded while its scope was live, the bucket counts delivered add up to %d (after a final pass and the root's Close)", nt, sr.hLive[nt], sr.hGot[nt]),
 					Detail: strings.Join(sr.lines, "\n")})
 				break
 			}
